@@ -50,4 +50,25 @@ PROPS = {
             {"pkg": T, "test": "TestVerifC14", "quick": (8, 40000), "thorough": (16, 400000)},
         ],
     },
+    "C03": {
+        "level": "exploration",
+        "claim": ("Generated candidate sets (2-6 distinct sources: local, eBGP, iBGP, confederation member; LOCAL_PREF, AS_PATH "
+                  "with SEQ/SET/CONFED segments, ORIGIN, MED, timestamps and router-ids with ties, unreachable next hop, "
+                  "LLGR_STALE) under all four selection options; every arrival permutation (n<=5) plus generated "
+                  "replace/withdraw histories must select the path chosen by an independent successive-elimination reference, "
+                  "and the same path in every history, whenever MED is comparable between all (or none) of the candidates "
+                  "that tie above MED; stored order, multipath set and the weaker always-sound ordering are checked too."),
+        "note": ("Reference decision procedure written from the property text / RFC 4271 9.1.2.2 / RFC 5065; the winner among "
+                 "confederation-member candidates that tie down to the age/router-id step is not asserted (only order "
+                 "independence), because no document fixes that tie-break."),
+        "technique": "property-based testing (rapid): reference model + permutation-invariance metamorphic relation, exhaustive permutations per set",
+        "rule": ("rapid draws a candidate set, options and 1-4 histories (random add-decoy/add/withdraw prelude followed by a "
+                 "permutation of the final announcements); for n<=5 all n! arrival orders are run as well; non-trivial when the "
+                 "set has >=3 candidates, the decision falls at AS_PATH length or later, MED is decidable and two histories "
+                 "start with different candidates; distinct by case hash"),
+        "assumptions": ["distinct sources have distinct neighbour addresses", "every route carries ORIGIN and AS_PATH"],
+        "units": [
+            {"pkg": T, "test": "TestVerifC03", "quick": (12, 2500), "thorough": (16, 150000)},
+        ],
+    },
 }
